@@ -307,7 +307,7 @@ def _run_sart(case, ctx, W, b, xt):
     scale = max(xnat, float(np.max(np.abs(x0))), itmax)
 
     def tol_at(k):   # component-wise tolerance for iterate k (0-based)
-        return out["E"][k] / ref.s + 1e-300
+        return out["E"][k] / ref.s + max(1e-280, 1e-150 * scale)     # floor: subnormal range carries no relative accuracy
 
     if bzero:
         ctx.mon("zero_b")
